@@ -90,7 +90,7 @@ fn plan(quick: bool) -> Plan {
         p1("P1", allops.clone(), if quick { a6() } else { a12() }, vec![vec![2u8], vec![5], vec![11]], if quick { 2 } else { 3 }),
         p1b(allops.clone(), 2),
         p2(classic_ops(), if quick { vec![vec![1], vec![0x80]] } else { vec![vec![], vec![1], vec![0x80]] }),
-        p3(4, 2),
+        if quick { p3_env(4, 2, &[vec![], vec![1]]) } else { p3(4, 2) },
         p4(if quick { 12 } else { 60 }, false),
         p_paths(40),
         p_gc(),
